@@ -67,6 +67,13 @@ def grow_cases(rng, caps, per_cap):
             pool = draw_pool(rng, scale(k // 3))
             draws = [rng.choice(pool) for _ in range(10)]
             out.append("%d %d %d %s %s" % (k, rng.choice([0, MAX]), k, ops, ",".join(map(str, draws))))
+    # the cache directory given as the EMPTY relative path (= the current directory): joining a
+    # name onto it and listing it must agree on which directory that is
+    for k in (0, 1, 2, 3, 6):
+        for ops in ("Esssss", "Espsps", "EAsssp"):
+            pool = draw_pool(rng, scale(k // 3))
+            draws = [rng.choice(pool) for _ in range(14)]
+            out.append("%d %d %d %s %s" % (k, rng.choice([0, MAX]), k + 2, ops, ",".join(map(str, draws))))
     for k in (0, 1, 2, 3, 5):
         for ops in ("PPP", "PpP", "SPs", "PSP"):
             pool = draw_pool(rng, scale(k // 3))
